@@ -78,16 +78,52 @@ func DepTypeText(kvs []KV) string {
 
 // SchemaText renders the spec in the schema grammar: flag attributes of a
 // version go in the "flags|version" prefix, valued attributes on ATTR: lines.
-func (s *Spec) SchemaText() string {
+func (s *Spec) SchemaText() string { return s.SchemaTextStyle(0) }
+
+func simpleToken(v string) bool {
+	if v == "" {
+		return false
+	}
+	for i := 0; i < len(v); i++ {
+		c := v[i]
+		if c <= ' ' || c == '"' || c == '`' || c == '|' || c == '#' || c == '\\' || c >= 0x7f {
+			return false
+		}
+	}
+	return true
+}
+
+func plainLine(v string) bool {
+	if v == "" || v[0] == '"' || v[0] == '`' || v[0] == ' ' || v[len(v)-1] == ' ' {
+		return false
+	}
+	for i := 0; i < len(v); i++ {
+		c := v[i]
+		if c < ' ' || c == '#' || c >= 0x7f {
+			return false
+		}
+	}
+	return true
+}
+
+// SchemaTextStyle renders the spec; the style selects between the equivalent
+// spellings of valued version attributes the grammar offers: 0 = quoted ATTR:
+// lines, 1 = simple values in the "key value ...|version" prefix, 2 = unquoted
+// ATTR: lines where the value allows it.
+func (s *Spec) SchemaTextStyle(style int) string {
 	var sb strings.Builder
 	for _, p := range s.Pkgs {
 		sb.WriteString(p.Name)
 		sb.WriteByte('\n')
 		for _, v := range p.Vers {
 			var flags []string
+			inPrefix := map[int]bool{}
 			for _, kv := range v.Attrs {
 				if k := version.AttrKey(kv.K); verFlag[k] {
 					flags = append(flags, strings.ToLower(k.String()))
+				} else if style == 1 && simpleToken(kv.V) {
+					flags = append(flags, strings.ToLower(k.String()), kv.V)
+					inPrefix[kv.K] = true
 				}
 			}
 			sb.WriteByte('\t')
@@ -99,7 +135,11 @@ func (s *Spec) SchemaText() string {
 			sb.WriteByte('\n')
 			for _, kv := range v.Attrs {
 				k := version.AttrKey(kv.K)
-				if verFlag[k] {
+				if verFlag[k] || inPrefix[kv.K] {
+					continue
+				}
+				if style == 2 && plainLine(kv.V) {
+					fmt.Fprintf(&sb, "\t\tATTR: %s %s\n", k.String(), kv.V)
 					continue
 				}
 				fmt.Fprintf(&sb, "\t\tATTR: %s %s\n", k.String(), strconv.Quote(kv.V))
